@@ -5,6 +5,7 @@ CONSTANTS
   MaxInp = 6
   MaxWrite = 3
   EmitOps = TRUE
+  EmitEvery = 1
   Backward = FALSE
 INVARIANT Inv
 PROPERTY Refines
